@@ -66,7 +66,9 @@ PROPS = {
         level_note='Trusted: Verus/Z3; prelude stand-ins (be-bytes shims, slice->array shim, Cow/Rdata opaque types); the contract of Rdata::read is '
                    'ASSUMED here as a callee contract (rdata_read_spec; decided by the RDATA units of C18); name decoding is used through the '
                    'contracts proved in unit name_wire (run as part of this check). rewind() keeps its documented precondition (a mark is set).',
-        verus=[dict(unit='reader', which='all'), dict(unit='name_wire', which='all'), dict(unit='dns_types', which='all')],
+        verus=[dict(unit='reader', which='all'), dict(unit='name_wire', which='all'), dict(unit='dns_types', which='all'),
+               # 'successful reads agree ... including decompressed RDATA': the RDATA readers (property C18's unit) are part of it
+               dict(unit='rdata', which='all')],
         kani=[],
         cex={'name_wire.skip_compressed_name': [('name_wire', 'cex_skip_len_le_buf')]},
         native=[dict(bin='bnd_reader', when='quick',
